@@ -432,6 +432,12 @@ func lbCorpus() []LbCase {
 	out = append(out, LbCase{Strategy: "round_robin", Backends: []int{1}, Passive: true, PThr: 1, PTimeout: 30, Ops: []LbOp{
 		{K: "begin", Rid: 1, Remote: "10.0.0.1:1"}, {K: "end", Rid: 1, Code: 500}, {K: "begin", Rid: 2, Remote: "10.0.0.1:1"}, {K: "metrics"},
 		{K: "adv", D: 31 * sec}, {K: "begin", Rid: 3, Remote: "10.0.0.1:1"}, {K: "end", Rid: 3, Code: -1}, {K: "begin", Rid: 4, Remote: "10.0.0.1:1"}, {K: "end", Rid: 4, Code: -1}, {K: "metrics"}, {K: "list"}}})
+	// C13 known finding gauge-stale-after-readd-while-draining: requests in flight on n1 and n2, n1 removed and added again under
+	// its name, requests to both, the requests on the removed object end: the published gauge of n1 drops to 0 with one in flight
+	out = append(out, LbCase{Strategy: "round_robin", Backends: []int{1, 1}, Ops: []LbOp{
+		{K: "begin", Rid: 1, Remote: "10.0.0.1:1"}, {K: "begin", Rid: 2, Remote: "10.0.0.1:1"}, {K: "rm", Name: 1}, {K: "add", Name: 1, W: 1, Addr: "http://b1b.invalid:80"},
+		{K: "begin", Rid: 3, Remote: "10.0.0.1:1"}, {K: "begin", Rid: 4, Remote: "10.0.0.1:1"}, {K: "end", Rid: 1, Code: 200}, {K: "end", Rid: 2, Code: 200},
+		{K: "metrics"}, {K: "list"}, {K: "drain"}, {K: "metrics"}}})
 	// C07 at balancer level: threshold 2, five 500s
 	out = append(out, LbCase{Strategy: "round_robin", Backends: []int{1, 1}, Brk: true, BMax: 1, BInterval: 60, BTimeout: 60, BFthr: 2, BSthr: 1, Ops: []LbOp{
 		{K: "begin", Rid: 1, Remote: "10.0.0.1:1"}, {K: "end", Rid: 1, Code: 500}, {K: "begin", Rid: 2, Remote: "10.0.0.1:1"}, {K: "end", Rid: 2, Code: 500},
